@@ -36,7 +36,7 @@ pub fn run(tier: Tier) -> Run {
     let mut alpha = core_alphabet();
     // implicit int/float/vector with two argument values each, explicit variants colliding / not colliding
     let pick = |name: &str| sites.iter().position(|s| s.name == name).expect("type method");
-    for (n, e, v) in [("type_int", None, 0), ("type_int", None, 1), ("type_int_id", Some(1u32), 0), ("type_int_id", Some(41), 0), ("type_float", None, 0), ("type_vector", None, 0), ("type_struct", None, 0), ("type_struct", None, 1)] {
+    for (n, e, v) in [("type_int", None, 0), ("type_int", None, 1), ("type_int", None, 2), ("type_int_id", Some(1u32), 0), ("type_int_id", Some(41), 0), ("type_float", None, 0), ("type_vector", None, 0), ("type_struct", None, 0), ("type_struct", None, 1)] {
         alpha.push(BOp::TypeCall(pick(n), e, v));
     }
     let f = |h: &[BOp]| bsys::to_step("C13", h, bsys::replay(h));
@@ -44,19 +44,51 @@ pub fn run(tier: Tier) -> Run {
     let d_clos = tier.pick(4, 6);
     let a = xs::enumerate(&alpha, d_enum, &f);
     let b = xs::closure(&alpha, d_clos, tier.pick(300_000, 6_000_000), &f);
-    // ---- part 2: every generated type method (all 64), every pair of requests over
-    //      {implicit v0, implicit v1, explicit fresh-looking id, explicit colliding id}, interleaved with id() / constant
-    let mut alpha2: Vec<BOp> = vec![BOp::Id, BOp::ConstantBit32];
-    for (si, s) in sites.iter().enumerate() {
-        let takes_id = s.params.iter().any(crate::callargs::is_result_id_param);
+    // ---- part 2a: per generated type method (all 64): every sequence of depth d over
+    //      {id(), constant, implicit base, implicit with exactly ONE argument changed (each argument in turn),
+    //       explicit colliding id, explicit other id}
+    let d_site = tier.pick(3, 4);
+    let per_site: Vec<xs::Stats> = {
+        use rayon::prelude::*;
+        (0..sites.len())
+            .into_par_iter()
+            .map(|si| {
+                let s = &sites[si];
+                let mut al: Vec<BOp> = vec![BOp::Id, BOp::ConstantBit32];
+                for v in 0..bsys::type_call_variants(s) {
+                    al.push(BOp::TypeCall(si, None, v));
+                }
+                if s.params.iter().any(crate::callargs::is_result_id_param) {
+                    al.push(BOp::TypeCall(si, Some(1), 0));
+                    al.push(BOp::TypeCall(si, Some(77), 0));
+                }
+                xs::enumerate(&al, d_site, &f)
+            })
+            .collect()
+    };
+    // ---- part 2b: across methods (a dedup that forgets the opcode): every ordered pair of base requests
+    let mut alpha2: Vec<BOp> = vec![BOp::Id];
+    for si in 0..sites.len() {
         alpha2.push(BOp::TypeCall(si, None, 0));
-        alpha2.push(BOp::TypeCall(si, None, 1));
-        if takes_id {
-            alpha2.push(BOp::TypeCall(si, Some(1), 0));
-            alpha2.push(BOp::TypeCall(si, Some(77), 0));
+    }
+    let mut c = xs::enumerate(&alpha2, 2, &f);
+    for st in per_site {
+        c.states += st.states;
+        c.transitions += st.transitions;
+        c.histories_replayed += st.histories_replayed;
+        c.depth_completed = d_site;
+        for v in st.viols {
+            if !c.viols.iter().any(|x| x.key == v.key) {
+                c.viols.push(v);
+            }
+        }
+        for (k, n) in st.outcomes {
+            *c.outcomes.entry(k).or_insert(0) += n;
+        }
+        if c.sample_histories.len() < 6 {
+            c.sample_histories.extend(st.sample_histories.into_iter().take(1));
         }
     }
-    let c = xs::enumerate(&alpha2, tier.pick(2, 3), &f);
     for st in [&a, &b, &c] {
         run.add_all(st.viols.clone());
         run.merge_outcomes(&st.outcomes);
@@ -66,7 +98,7 @@ pub fn run(tier: Tier) -> Run {
     run.set("traces_validated_against_impl", json!(a.histories_replayed + b.histories_replayed + c.histories_replayed));
     run.set("max_depth", json!(b.max_depth));
     run.set("bounds", json!({"core_alphabet": alpha.iter().map(bsys::op_str).collect::<Vec<_>>(), "full_enumeration_depth": d_enum, "closure_depth": d_clos,
-        "type_method_alphabet": alpha2.len(), "type_methods": sites.len(), "type_method_enumeration_depth": tier.pick(2, 3)}));
+        "type_methods": sites.len(), "per_method_enumeration_depth": d_site, "cross_method_pairs_depth": 2}));
     run.set("bound_completed", json!({"enumeration_depth": a.depth_completed, "closure_depth": if b.depth_completed == usize::MAX { d_clos } else { b.depth_completed }, "type_method_depth": c.depth_completed}));
     run.set("closure", json!({"states": b.states, "transitions": b.transitions, "per_depth_states": b.per_depth_states}));
     if tier == Tier::Thorough {
